@@ -88,6 +88,13 @@ func publishedWorld(c *an.Ctx) *an.MutWorld {
 			return false
 		case *ssa.Call:
 			return sourceCalls[an.CalleeName(x)]
+		case *ssa.TypeAssert:
+			// an event taken off the bus is shared by every subscriber
+			if isResType(x, "CollectionChange") || isResType(x, "ValueChange") {
+				if isPointer(x.AssertedType) {
+					return true
+				}
+			}
 		}
 		return false
 	}
@@ -121,6 +128,14 @@ func publishedWorld(c *an.Ctx) *an.MutWorld {
 				}
 			}
 		})
+	}
+	// receivers of the change helpers (include / filter) are events shared by every subscriber
+	for _, tn := range []string{"CollectionChange", "ValueChange"} {
+		for _, mn := range []string{"include", "filter"} {
+			if m := c.Prog.Func(resPkg, tn, mn); m != nil && len(m.Params) > 0 {
+				w.ParamSource[m.Params[0]] = true
+			}
+		}
 	}
 	// ChangeFn literals: the closure returned by WriteRequest.changeFn
 	if cf := c.Prog.Func(resPkg, "WriteRequest", "changeFn"); cf != nil {
@@ -202,6 +217,8 @@ func runC07(c *an.Ctx) {
 	runE2(c, "R07.1", nil)
 	r072(c)
 	r026(c, "R07.3")
+	r074(c)
+	c.Min("R07.4", 3)
 	c.Min("R07.1", 60)
 	c.Min("R07.2", 4)
 	c.Min("R07.3", 2)
@@ -344,5 +361,93 @@ func DebugMut(p *an.Program, pkg, recv, name string) {
 		if s := w.Summary(f); s != nil {
 			fmt.Println("  summary writes:", s.Writes, s.WritesWhat)
 		}
+	}
+}
+
+// r074: an InterceptAfter callback receives the message that is about to be stored. Storing a
+// reference to a message owned by the caller of the enclosing function (one of its pointer
+// parameters) into it makes the stored value alias the caller's message.
+func r074(c *an.Ctx) {
+	const rule = "R07.4"
+	n := 0
+	for _, fn := range e2Scope(c) {
+		for _, call := range an.CallsTo(fn, an.ModulePath+"/pkg/resource.InterceptAfter") {
+			f := an.ClosureFn(call.Common().Args[0])
+			if f == nil || len(f.Params) < 2 {
+				continue
+			}
+			n++
+			c.SawFunc(an.FuncName(f))
+			dst := f.Params[1]
+			bad := ""
+			var pos ssa.Instruction
+			callerOwned := func(v ssa.Value) string {
+				for _, s := range an.Sources(v) {
+					switch x := s.(type) {
+					case *ssa.Parameter:
+						if x.Parent() != f && isPointer(x.Type()) {
+							return x.Name()
+						}
+					case *ssa.FreeVar:
+						if isPointer(deref(x.Type())) {
+							return x.Name()
+						}
+					case *ssa.UnOp:
+						if fv, ok := x.X.(*ssa.FreeVar); ok && isPointer(x.Type()) {
+							// captured variable: is it bound to a parameter of the enclosing function?
+							if cell := an.CellOf(fv); cell != nil {
+								for _, st := range an.StoresTo(cell) {
+									if p, isP := st.Val.(*ssa.Parameter); isP {
+										return p.Name()
+									}
+								}
+							}
+						}
+					}
+				}
+				return ""
+			}
+			an.Instrs(f, func(in ssa.Instruction) {
+				st, ok := in.(*ssa.Store)
+				if !ok {
+					return
+				}
+				// address rooted at dst?
+				root := st.Addr
+				for depth := 0; depth < 8; depth++ {
+					switch x := root.(type) {
+					case *ssa.FieldAddr:
+						root = x.X
+						continue
+					case *ssa.IndexAddr:
+						root = x.X
+						continue
+					}
+					break
+				}
+				isDst := false
+				for _, s := range an.Sources(root) {
+					if s == ssa.Value(dst) {
+						isDst = true
+					}
+				}
+				if !isDst {
+					return
+				}
+				if who := callerOwned(st.Val); who != "" {
+					bad = who
+					pos = st
+				}
+			})
+			cons := an.FuncName(f) + "|InterceptAfter stores no caller-owned reference into the saved message"
+			if bad != "" {
+				c.Bad(rule, cons, pos.Pos(), "the InterceptAfter callback stores `"+bad+"` (a message owned by the caller) by reference into the message that is about to be saved: the caller can change stored state, results and published events by modifying its own message afterwards")
+			} else {
+				c.Ok(rule, cons, f.Pos(), "")
+			}
+		}
+	}
+	if n == 0 {
+		c.Unk(rule, "module|InterceptAfter literals", 0, "no InterceptAfter callback found")
 	}
 }
